@@ -146,7 +146,11 @@ Print Assumptions c14_sweeps_listed.
    PARTIAL: liquidation.MsgLiquidateBorrow and auction.MsgPlaceDutchLendBid are excluded - the
    translator finds price errors assigned to _ on their paths (c14_price_unverified_sites); a
    price lookup inside a conditional block is covered by the call-site table, not by [exec].
-   (A raw GetTwa read whose found flag is discarded counts as such a site: C14-F1, fixed.) *)
+   (A raw GetTwa read whose found flag is discarded counts as such a site: C14-F1, fixed.)
+   Both excluded handlers are sent by the extended control matrix (TestC14X, same-pool and cross-pool
+   borrows); the discarded errors of the health re-checks changed outcomes and were repaired (C14-F2); the
+   sites that remain (CalcAssetPrice in UpdateLockedBorrows / CreteNewBorrow) follow a checked lookup of the
+   same feeds in the same message. *)
 Theorem c14_price_fail_closed_partial :
   (forall t, (match t with Some tw => active tw = false | None => True end) ->
              price_in_force t = Err 1 /\ get_latest t = Err 1) /\
